@@ -78,6 +78,7 @@ func main() {
 				rc = 1
 			}
 		}
+		pprof.StopCPUProfile()
 		os.Exit(rc)
 	}
 	rule, ok := rules.Registry[*prop]
